@@ -48,19 +48,22 @@ def run(tier, seed, model_ok):
         a = impl.get(k, 'MISSING')
         if model_ok and a != model.get(k, 'MISSING'):
             dis.append({'image_length': len(img), 'impl': a[:120], 'model': model.get(k, 'MISSING')[:120]})
-        if a.startswith('HEX '):
-            lines.append('%d HEXCHECK %s %s' % (i, a[4:], vlib.hx(img)))
+        if a.startswith('HEX2 '):
+            fc, fe = a[5:].split(' ')
+            lines.append('%d HEXCHECK %s %s' % (i, fc, vlib.hx(img)))
+            if len(img) <= 70000 or i % 3 == 0:      # the EEPROM file of the very large images: every third (the reader is slow)
+                lines.append('%de HEXCHECK %s %s' % (i, fe, vlib.hx(bytes(b ^ 0x5a for b in img))))
         else:
             vio.append({'what': 'writer did not produce one and the same file for code and eeprom / failed', 'image_length': len(img), 'impl': a[:100], 'expected': 'HEX file', 'key': 'write'})
     spec, _, _ = vlib.run_lines(E.SPEC, lines, mode=None)
     for i, img in enumerate(imgs):
-        s = spec.get(str(i))
+      for which, s in (('code', spec.get(str(i))), ('eeprom', spec.get('%de' % i))):
         if s is not None and s != 'MATCH':
-            vio.append({'what': 'independent reader does not get the image back: ' + s, 'image_length': len(img),
+            vio.append({'what': 'independent reader does not get the %s image back from the file of the %s writer: ' % (which, which) + s, 'image_length': len(img),
                         'image_head': vlib.hx(img[:32]), 'impl': impl[str(i)][:160], 'expected': 'MATCH', 'key': 'len%d' % len(img)})
     return {
         'evaluations': len(imgs), 'distinct_nontrivial': len({(len(i), i[:64]) for i in imgs}) - 1,
-        'rule': 'every image length 0..599, every length within 17 bytes of each multiple of 64 KiB up to the largest flash of the device table (%d bytes) + 64 KiB, plus 1 MiB -1/+0/+1/+17 (default device), contents random / zero / 0xff / counting (seeded); both writers (code and EEPROM) on the same image; distinct = distinct (length, head) pairs, the empty image not counted as non-trivial' % maxflash,
+        'rule': 'every image length 0..599, every length within 17 bytes of each multiple of 64 KiB up to the largest flash of the device table (%d bytes) + 64 KiB, plus 1 MiB -1/+0/+1/+17 (default device), contents random / zero / 0xff / counting (seeded); the code writer on the image and the EEPROM writer on the image xor 0x5a, two times out of three onto existing longer files; distinct = distinct (length, head) pairs, the empty image not counted as non-trivial' % maxflash,
         'samples': [{'length': len(imgs[5]), 'bytes': vlib.hx(imgs[5])}, {'length': len(imgs[-1])}],
         'exhaustive': False,
         'distribution': {'lengths': len(ls), 'max_length': ls[-1], 'over_64k': sum(1 for l in ls if l > 65536)},
